@@ -64,6 +64,7 @@ Section Discipline.
     unfold all_protected in AP. rewrite forallb_forall in AP.
     specialize (AP f1 In1). rewrite F1, Hskip in AP. cbn [orb] in AP.
     rewrite forallb_forall in AP. specialize (AP f2 In2).
+    rewrite unprotected_pair_l_eq in AP.
     apply negb_true_iff in AP. unfold unprotected_pair in AP.
     assert (Hc : conflicting f1 f2 = true).
     { unfold conflicting. rewrite F1, F2, String.eqb_refl. cbn [andb].
